@@ -40,6 +40,9 @@ type Msg struct {
 	Desc     string // for the trace (kind + salient fields), deterministic
 	Key      string // gossip de-duplication key ("" for reactor-originated sends)
 	Byz      bool
+	Meta     msgMeta // structured description (consensus gossip and Byzantine senders)
+	NoFilter bool    // not subject to the director (a Byzantine sender's own timing)
+	Front    bool    // delivered before everything else deliverable at the same instant, no network fault
 }
 
 type msgHeap []*Msg
@@ -48,6 +51,9 @@ func (h msgHeap) Len() int { return len(h) }
 func (h msgHeap) Less(i, j int) bool {
 	if h[i].At != h[j].At {
 		return h[i].At < h[j].At
+	}
+	if h[i].Front != h[j].Front {
+		return h[i].Front
 	}
 	return h[i].Seq < h[j].Seq
 }
@@ -95,6 +101,8 @@ type RunCfg struct {
 	TxPct      int     `json:"tx_pct"`
 	Filters    bool    `json:"message_class_filters"`
 	EvForger   bool    `json:"evidence_forger"`
+	Director   bool    `json:"round_director"`
+	WalHeadLimit int   `json:"wal_head_size_limit"` // crash mode: 0 = the product's default (10 MB, never reached)
 }
 
 // Sim is one run.
@@ -136,6 +144,11 @@ type Sim struct {
 	bogusParts map[int]int
 	learnedSaved map[int]int
 	filters    []*classFilter
+	dir        *director
+	afterQ     func() // crash engine: poll for WAL rotation at quiescent points
+	holdDst    int           // crash engine: node that gets no proposal / parts until holdUntil (-1 = none)
+	holdUntil  time.Duration
+	dirNextH   uint64
 	healAt     time.Duration
 	cleanStop  bool
 	userNonce      map[int]uint64
@@ -292,6 +305,25 @@ func (s *Sim) schedule(m *Msg) {
 		if m.Key != "" {
 			s.backoff(m.Key, true)
 		}
+		return
+	}
+	if s.directed(m) {
+		s.directorHold(m)
+		return
+	}
+	if s.holdDst >= 0 && m.Dst == s.holdDst && (m.Meta.T == 3 || m.Meta.T == 4) && s.now() < s.holdUntil {
+		// crash engine: the restarted node does not get the round's proposal again for a while
+		s.res.Fault("proposal-withheld-from-restarted-node")
+		if m.Key != "" {
+			s.until[m.Key] = s.now() + 40*time.Millisecond
+		}
+		return
+	}
+	if m.Front {
+		m.At = s.now()
+		s.seq++
+		m.Seq = s.seq
+		heap.Push(&s.q, m)
 		return
 	}
 	if s.filtered(m) {
@@ -472,6 +504,9 @@ func (s *Sim) loop(goal func() bool, maxSim time.Duration) {
 			return
 		}
 		synctest.Wait()
+		if s.afterQ != nil {
+			s.afterQ()
+		}
 		s.flushOutbox()
 		s.mon.afterQuiescence()
 		if s.failedNow() {
@@ -485,6 +520,7 @@ func (s *Sim) loop(goal func() bool, maxSim time.Duration) {
 		}
 		s.maybePartition()
 		s.maybeFilter()
+		s.directorStep()
 		s.learnAll()
 		s.workloadStep()
 		s.gossip()
